@@ -7,7 +7,7 @@ From JWT Require Import Base.GoSem Gen.SrcDidSign Model.DidSign Proofs.SrcDidSig
 Open Scope string_scope.
 
 Theorem C08_source_operator_did_sign : forall id strict keys (c : option sclaim),
-  V2.OperatorClaims_DidSign keys strict id (sc_iss' c) (sc_sub' c) (sc_nil c) = op_did_sign id strict keys c.
+  V2.OperatorClaims_DidSign id keys strict (sc_iss' c) (sc_sub' c) (sc_nil c) = op_did_sign id strict keys c.
 Proof. exact src_op_did_sign. Qed.
 Print Assumptions C08_source_operator_did_sign.
 Theorem C08_source_account_did_sign : forall id keys (c : option sclaim),
